@@ -21,7 +21,14 @@ Level1 == { [k |-> "array", items |-> t] : t \in Leaves } \cup { [k |-> "map", v
           \cup { [k |-> "union", br |-> << P("float"), P("null"), P("double") >>] }
           \cup { RecT(<< Fld("a", a), Fld("b", b) >>) : a \in { P("int"), P("string"), P("null") }, b \in { P("boolean"), P("double"), FixedT } }
           \cup { RecT(<<>>) }
-Types == IF Depth = 0 THEN Leaves ELSE Leaves \cup Level1
+\* depth 2: one more level over a sample of level-1 types (distinct record names so that the schemas stay valid)
+RecQ(fs) == [k |-> "record", name |-> Cps("Q"), aliases |-> <<>>, fields |-> fs]
+L1Sample == { [k |-> "array", items |-> P("int")], [k |-> "map", values |-> P("string")], [k |-> "union", br |-> << P("null"), P("long") >>],
+              RecT(<< Fld("a", P("int")), Fld("b", P("boolean")) >>), RecT(<<>>), [k |-> "array", items |-> P("null")] }
+Level2 == { [k |-> "array", items |-> u] : u \in L1Sample } \cup { [k |-> "map", values |-> u] : u \in L1Sample }
+          \cup { [k |-> "union", br |-> << P("null"), u >>] : u \in { x \in L1Sample : x.k # "union" } }
+          \cup { RecQ(<< Fld("a", u), Fld("b", P("int")) >>) : u \in L1Sample }
+Types == IF Depth = 0 THEN Leaves ELSE IF Depth = 1 THEN Leaves \cup Level1 ELSE Leaves \cup Level1 \cup Level2
 
 I(n) == VInt(IFromInt(n))
 BigI(mag, neg) == [p |-> "int", neg |-> neg, mag |-> mag]
@@ -39,16 +46,20 @@ LeafVals(t) ==
     [] t.k = "fixed" -> { VBytes(<<1, 2>>) }
     [] t.k = "enum" -> { VStr(Cps("A")), VStr(Cps("B")) }
 Pick2(S) == LET a == CHOOSE x \in S : TRUE IN IF S = {a} THEN {a} ELSE { a, CHOOSE x \in S \ {a} : TRUE }
+IsLeaf(t) == t.k \notin {"array", "map", "union", "record"}
+RECURSIVE Vals(_)
+\* values of a child type: all leaf values, or two values of a composite child
+Sub(t) == IF IsLeaf(t) THEN LeafVals(t) ELSE Pick2(Vals(t))
 Vals(t) ==
-  CASE t.k = "array" -> LET vs == Pick2(LeafVals(t.items)) IN
-                        { VList(<<>>) } \cup { VList(<<a>>) : a \in LeafVals(t.items) } \cup { VList(<<a, b, a>>) : a, b \in vs } \cup { VTuple(<<a, b>>) : a, b \in vs }
-    [] t.k = "map" -> LET vs == Pick2(LeafVals(t.values)) IN
+  CASE t.k = "array" -> LET vs == Pick2(Sub(t.items)) IN
+                        { VList(<<>>) } \cup { VList(<<a>>) : a \in Sub(t.items) } \cup { VList(<<a, b, a>>) : a, b \in vs } \cup { VTuple(<<a, b>>) : a, b \in vs }
+    [] t.k = "map" -> LET vs == Pick2(Sub(t.values)) IN
                       { VDict(<<>>, <<>>) } \cup { VDict(<< VStr(<<107>>) >>, <<a>>) : a \in vs }
                       \cup { VDict(<< VStr(<<107>>), VStr(<<>>), VStr(<<233>>) >>, <<a, b, b>>) : a, b \in vs }
-    [] t.k = "union" -> UNION { LeafVals(t.br[i]) : i \in 1..Len(t.br) }
-                        \cup { VTuple(<< VStr(BranchName(t.br[Len(t.br)], EmptyFn)), CHOOSE x \in LeafVals(t.br[Len(t.br)]) : TRUE >>) }
+    [] t.k = "union" -> UNION { Sub(t.br[i]) : i \in 1..Len(t.br) }
+                        \cup { VTuple(<< VStr(BranchName(t.br[Len(t.br)], EmptyFn)), CHOOSE x \in Sub(t.br[Len(t.br)]) : TRUE >>) }
     [] t.k = "record" -> IF Len(t.fields) = 0 THEN { VDict(<<>>, <<>>) }
-                         ELSE { VDict(<< VStr(Cps("b")), VStr(Cps("a")) >>, <<b, a>>) : a \in Pick2(LeafVals(t.fields[1].type)), b \in Pick2(LeafVals(t.fields[2].type)) }
+                         ELSE { VDict(<< VStr(Cps("b")), VStr(Cps("a")) >>, <<b, a>>) : a \in Pick2(Sub(t.fields[1].type)), b \in Pick2(Sub(t.fields[2].type)) }
     [] OTHER -> LeafVals(t)
 
 Universe == { <<t, v>> : t \in Types, v \in UNION { Vals(u) : u \in Types } } 
